@@ -886,10 +886,8 @@ def r6(ctx):
         for st in body:
             if isinstance(st, ast.Assign) and isinstance(st.targets[0], ast.Name):
                 benv[st.targets[0].id] = st.value
-        outer = {}
-        for st in loop.body:
-            if isinstance(st, ast.Assign) and isinstance(st.targets[0], ast.Name):
-                outer[st.targets[0].id] = st.value
+        from engine.astutil import conditional_defs
+        outer = conditional_defs(loop.body)          # (a mask chosen by `if c: m = A else: m = B` reads as `A if c else B`)
         fenv = {k: v for k, v in single_defs(f.node).items() if k not in outer and k not in benv}
         env_all = {**fenv, **outer, **benv}
         v = inline(w_.value, {k: x for k, x in env_all.items()})
@@ -1078,6 +1076,33 @@ def r11(ctx):
     N = Norm(strict=False)
     accs = {n.targets[0].id for n in walk_own(f.node) if isinstance(n, ast.Assign) and len(n.targets) == 1 and isinstance(n.targets[0], ast.Name)
             and U(n.value).replace(" ", "") in (f"np.ones({S}.size,dtype=bool)", f"np.ones(len({S}.observations),dtype=bool)", f"np.ones({S}.size,bool)")}
+    if not accs:
+        # the other common form: the ids to drop are collected first, the rows kept are those whose id is not among them
+        #   DROP = [sid for sid, n in COUNTS.items() if n < self.min_n_cell_line_plates] ;  keep = ~np.isin(S.sample_ids, DROP)
+        env = single_defs(f.node)
+        subs = [c for c in calls(f.node, tail="subset") if U(c.func.value) == S and len(argv(c)) == 1]
+        ctx.need(len(subs) == 1, f"{f.site()}: neither an all-true vector narrowed sample by sample nor `{S}.subset(<rows kept>)` was found")
+        keep = inline(argv(subs[0])[0], env)
+        drop = None
+        if isinstance(keep, ast.UnaryOp) and isinstance(keep.op, ast.Invert) and isinstance(keep.operand, ast.Call) and call_name(keep.operand) == "np.isin" \
+                and len(keep.operand.args) == 2 and U(keep.operand.args[0]) == f"{S}.sample_ids" and not keep.operand.keywords:
+            drop = keep.operand.args[1]
+        elif isinstance(keep, ast.Call) and call_name(keep) == "np.isin" and len(keep.args) == 2 and U(keep.args[0]) == f"{S}.sample_ids" \
+                and U(kwargs(keep).get("invert")) == "True":
+            drop = keep.args[1]
+        if drop is None:
+            raise AnalysisError(f"{f.site()}: the rows kept are `{U(keep)[:90]}`; not a form this rule reads")
+        while isinstance(drop, ast.Call) and call_name(drop) in ("np.array", "np.asarray", "list", "set", "sorted", "np.fromiter", "tuple") and drop.args:
+            drop = inline(drop.args[0], env)
+        g_ = drop.generators[0] if isinstance(drop, (ast.ListComp, ast.SetComp, ast.GeneratorExp)) and len(drop.generators) == 1 else None
+        if g_ is None or not (isinstance(g_.target, ast.Tuple) and len(g_.target.elts) == 2 and isinstance(g_.iter, ast.Call) and attr_tail(g_.iter) == "items" and len(g_.ifs) == 1
+                              and U(drop.elt) == U(g_.target.elts[0])):
+            raise AnalysisError(f"{f.site()}: the ids to drop are `{U(drop)[:90]}`; not a selection of the keys of a per-sample counter that this rule reads")
+        cnt = U(g_.target.elts[1])
+        ctx.check("R11", f"{f.site()}::dropped-ids", N.b(g_.ifs[0], integer=True) == N.b(parse_expr(f"{cnt} < self.min_n_cell_line_plates"), integer=True),
+                  "the samples dropped are those with fewer than min_n_cell_line_plates plates; the rows kept are those of all other samples",
+                  f"the samples dropped are those with `{U(g_.ifs[0])}`, not `{cnt} < self.min_n_cell_line_plates`")
+        return
     ctx.need(len(accs) == 1, f"{f.site()}: the all-true vector of retained rows (np.ones({S}.size, dtype=bool)) was not found")
     acc = next(iter(accs))
     ups = []
